@@ -108,7 +108,7 @@ def op_strategy(draw):
         ['sub'] * 2 + ['tsub'] * 2 + ['unsub'] * 2 + ['rbases', 'rebuild'] +
         ['ibases'] * 2 + ['cimpl'] * 2 + ['conly', 'dprov', 'dprov', 'aprov',
                                           'nprov'] + ['tspec'] * 4 +
-        ['burst'] + ['classcut'] * 2))
+        ['burst'] + ['classcut'] * 2 + ['dsame'] * 2))
     if k == 'query':
         arity = draw(st.sampled_from([0, 1, 1, 1, 2, 2, 2]))
         entry = draw(st.sampled_from(ENTRY))
@@ -139,6 +139,11 @@ def op_strategy(draw):
         return ['rbases', draw(IDX), draw(st.lists(IDX, max_size=2))]
     if k == 'rebuild':
         return ['rebuild', draw(IDX)]
+    if k == 'dsame':
+        # the declaration made last on an instance, repeated on another
+        # instance of the same class (they share the cached declaration
+        # object, whatever happened to the class in between - seed C02h)
+        return ['dsame']
     if k == 'classcut':
         return ['classcut', draw(IDX), draw(st.integers(0, 40)),
                 draw(st.integers(0, 40)), draw(st.booleans())]
@@ -191,6 +196,8 @@ def case_strategy(draw):
                             st.integers(0, len(bp['ibases']) - 1),
                             max_size=1))}
                        for k in range(draw(st.integers(1, 3)))]
+    if len(bp['insts']) >= 2 and draw(st.booleans()):
+        bp['insts'][1]['cls'] = bp['insts'][0]['cls']
     ops = [draw(op_strategy()) for _ in range(draw(st.integers(8, 40)))]
     checks = draw(st.lists(st.booleans(), min_size=1, max_size=6))
     return {'bp': bp, 'ops': ops, 'checks': checks}
@@ -392,6 +399,7 @@ def run_case(case, cfg, out):
             out_.append(list(s.__sro__) + [None])
         return out_
 
+    last_decl = [None]
     skip_pattern = case.get('checks') or [True]
     for n, op in enumerate(case['ops']):
         kind = op[0]
@@ -655,11 +663,23 @@ def run_case(case, cfg, out):
         elif kind == 'dprov':
             ob = U.insts[op[1] % len(U.insts)]
             directlyProvides(ob, *[U.ifaces[i % nI] for i in op[2]])
+            last_decl[0] = (ob, directlyProvides, op[2])
             out.tag('directlyProvides')
         elif kind == 'aprov':
             ob = U.insts[op[1] % len(U.insts)]
             alsoProvides(ob, *[U.ifaces[i % nI] for i in op[2]])
+            last_decl[0] = (ob, alsoProvides, op[2])
             out.tag('alsoProvides')
+        elif kind == 'dsame':
+            if last_decl[0] is None:
+                continue
+            ob0, fn, idxs = last_decl[0]
+            twins = [o for o in U.insts if o is not ob0 and
+                     type(o) is type(ob0)]
+            if not twins:
+                continue
+            fn(twins[0], *[U.ifaces[i % nI] for i in idxs])
+            out.tag('same_declaration_on_twin')
         elif kind == 'nprov':
             ob = U.insts[op[1] % len(U.insts)]
             try:
